@@ -27,6 +27,8 @@ type RoutineContainer struct {
 	routine *runningRoutine
 	// retryBo is the retry backoff if retrying is enabled.
 	retryBo cbackoff.BackOff
+	// lastExitedCh is closed when the most recently started instance exits.
+	lastExitedCh <-chan struct{}
 }
 
 // NewRoutineContainer constructs a new RoutineContainer.
@@ -276,7 +278,13 @@ func (r *runningRoutine) start(ctx context.Context, waitCh <-chan struct{}, forc
 		return
 	}
 	r.stop()
+	if waitCh == nil {
+		// always wait for the most recently started instance, even if it
+		// belonged to a routine that was replaced or removed in the meantime.
+		waitCh = r.r.lastExitedCh
+	}
 	exitedCh := make(chan struct{})
+	r.r.lastExitedCh = exitedCh
 	r.err = nil
 	r.success, r.exited = false, false
 	r.exitedCh = exitedCh
